@@ -41,3 +41,6 @@ Proof.
   intros Hs H Hin. destruct (scan_positions _ _ _ Hs H) as [P1 _].
   pose proof (proj1 (Forall_forall _ _) P1 _ Hin) as Ht. split; [exact Ht|apply Line_spec; exact Ht].
 Qed.
+
+Lemma scan_terminates o inp : supported o = true -> scan o inp <> OutOfFuel.
+Proof. intros Hs. apply supported_spec in Hs as [H1 H2]. apply Scan_terminates; auto. Qed.
